@@ -545,18 +545,21 @@ pub fn drive<C: Check>(check: &C, opts: &Opts, extra: Vec<ExtraPhase>) -> i32 {
         println!("KNOWN-FINDING: property={} {} [{}] (seen {} times)", check.id(), what, key, n);
     }
     // report at most 3 distinct invariants
+    let mut batch_harness_error = false;
     let mut seen_inv = BTreeSet::new();
     for f in &res.found {
         if f.violation.invariant.starts_with("harness:") {
             eprintln!("HARNESS-ERROR run {}: {} ({})", f.index, f.violation.invariant, f.violation.detail);
-            return 2;
+            batch_harness_error = true;
+            break;
         }
         if !seen_inv.insert(f.violation.invariant.clone()) || seen_inv.len() > 3 {
             continue;
         }
         let Some((min_sc, min_v, execs)) = minimise(check, &f.scenario, &f.violation.invariant) else {
-            eprintln!("HARNESS-ERROR run {} reported {} but re-executing its scenario did not reproduce it (nondeterminism in the harness)", f.index, f.violation.invariant);
-            return 2;
+            eprintln!("HARNESS-ERROR run {} reported {} but re-executing its scenario did not reproduce it (the result depends on something outside the run: state kept by the process, or nondeterminism in the harness)", f.index, f.violation.invariant);
+            batch_harness_error = true;
+            continue;
         };
         violations += 1;
         let rf = ReplayFile {
@@ -674,6 +677,9 @@ pub fn drive<C: Check>(check: &C, opts: &Opts, extra: Vec<ExtraPhase>) -> i32 {
         wall,
         if res.truncated { " (batch truncated by wall cap)" } else { "" }
     );
+    if exit == 0 && batch_harness_error {
+        return 2;
+    }
     if exit == 0 {
         if let Some(e) = harness_error {
             eprintln!("HARNESS-ERROR {}", e);
